@@ -82,7 +82,10 @@ def _lib():
     return cnfgen
 
 
-def cli_call(tool, argv, mode, stdin_text=None):
+_CWD = [None]
+
+
+def cli_call(tool, argv, mode, stdin_text=None, cwd=None):
     """Run one tool in-process.  Returns (status, value, stdout_text):
     status in ok | clierror | exit | exception."""
     import cnfgen.clitools.msg as msg
@@ -104,8 +107,12 @@ def cli_call(tool, argv, mode, stdin_text=None):
     sys.stdin = io.StringIO(stdin_text or '')
     sys.stdout = out
     sys.stderr = io.StringIO()
+    cwd = cwd or _CWD[0]          # the scratch directory of the running shard
+    cwd0 = os.getcwd() if cwd else None
     try:
         try:
+            if cwd:
+                os.chdir(cwd)         # file arguments given by relative names
             res = cli([str(a) for a in argv], mode=mode)
             status = 'ok'
         except CLIError as e:
@@ -116,6 +123,8 @@ def cli_call(tool, argv, mode, stdin_text=None):
             res, status = e, 'exception'
     finally:
         sys.stdin, sys.stdout, sys.stderr = old
+        if cwd0 is not None:
+            os.chdir(cwd0)
         if hasattr(msg, '_prefix'):
             msg._prefix = ''
     gc.collect()                      # closes files opened by argparse.FileType
@@ -174,6 +183,7 @@ class Tmp:
 
     def __init__(self):
         self.path = tempfile.mkdtemp(prefix='c17_%d_' % os.getpid())
+        _CWD[0] = self.path
         self.k = 0
 
     def tag(self):
@@ -377,7 +387,7 @@ def check_formula_case(case, tmp, T, R=None):
     fc = L.CNF if case['tool'] == 'cnfgen' else __import__('cnfgen.formula.opb', fromlist=['OPB']).OPB
     argv, stdin, graphs, tgraphs = build_argv(case, tmp, T)
     random.seed(hseed(case))
-    status, res, _ = cli_call(case['tool'], argv, 'formula', stdin)
+    status, res, _ = cli_call(case['tool'], argv, 'formula', stdin, cwd=tmp.path)
     if R is not None:
         R.stats['cli_calls'] += 1
     if case.get('seed') is not None and status == 'ok' and hseed(case) % 3 == 0:
@@ -387,7 +397,7 @@ def check_formula_case(case, tmp, T, R=None):
         first = signature(res)
         random.seed(hseed(case) ^ 0x5bd1e995)
         random.random()
-        st2, res2, _ = cli_call(case['tool'], argv, 'formula', stdin)
+        st2, res2, _ = cli_call(case['tool'], argv, 'formula', stdin, cwd=tmp.path)
         if R is not None:
             R.stats['cli_calls'] += 1
             R.stats['seeded_command_lines_run_twice'] += 1
@@ -902,8 +912,10 @@ def check_gsave_case(case, tmp, T, R=None):
     random.seed(hseed(case))
     old = sys.stdin
     sys.stdin = io.StringIO(stdin or '')
+    cwd0 = os.getcwd()
     try:
         try:
+            os.chdir(tmp.path)     # file arguments given by relative names
             G = make_graph_from_spec(gd['t'], [str(x) for x in toks])
         except ValueError:         # documented refusal (e.g. no missing edge left to add)
             return out, 'both_refuse'
@@ -912,6 +924,7 @@ def check_gsave_case(case, tmp, T, R=None):
             return out, 'violation'
     finally:
         sys.stdin = old
+        os.chdir(cwd0)
     H = T.graph_lib(gd, tmp.path, tag, L)
     a, b = T.graph_facts(G), T.graph_facts(H)
     if R is not None:
